@@ -13,6 +13,7 @@ import (
 	"os"
 	"sort"
 	"strconv"
+	"strings"
 )
 
 type cmdFunc func(args []string) error
@@ -35,6 +36,11 @@ func main() {
 	if !ok {
 		fmt.Fprintln(os.Stderr, "unknown command", os.Args[1])
 		os.Exit(2)
+	}
+	// the out= file of a replay command holds mismatches; a change that breaks everything would fill the disk (and the
+	// memory of whoever reads the file) with millions of them: the first few thousand are kept, all are counted
+	if strings.HasPrefix(os.Args[1], "replay-") {
+		recordCap = 4000
 	}
 	err := f(os.Args[2:])
 	layoutCleanup()
@@ -88,6 +94,9 @@ type ndWriter struct {
 	n int
 }
 
+// recordCap: if positive, the number of records an ndWriter keeps (the rest is only counted in n)
+var recordCap int
+
 func newNDWriter(path string) (*ndWriter, error) {
 	f, err := os.Create(path)
 	if err != nil {
@@ -97,6 +106,10 @@ func newNDWriter(path string) (*ndWriter, error) {
 }
 
 func (n *ndWriter) write(v any) {
+	if recordCap > 0 && n.n >= recordCap {
+		n.n++
+		return
+	}
 	b, err := json.Marshal(v)
 	if err != nil {
 		panic(err)
